@@ -5,6 +5,7 @@ import (
 	"fmt"
 	"strings"
 	"sync"
+	"sync/atomic"
 	"time"
 
 	"github.com/basecomplextech/baselibrary/async"
@@ -13,6 +14,57 @@ import (
 	"verif/harness/internal/caplog"
 	"verif/harness/internal/hx"
 )
+
+// runClock is the context of one run. A watchdog cancels it when the run exceeds its timeout or
+// when no send or receive succeeded anywhere for the stall period (a hang is then reported within
+// seconds instead of after the full timeout).
+type runClock struct {
+	async.CancelContext
+	progress atomic.Int64
+	expired  atomic.Bool
+	quit     chan struct{}
+	once     sync.Once
+}
+
+func newRunClock(timeout, stall time.Duration) *runClock {
+	c := &runClock{CancelContext: async.NewContext(), quit: make(chan struct{})}
+	go func() {
+		t := time.NewTicker(20 * time.Millisecond)
+		defer t.Stop()
+		start := time.Now()
+		last, lastAt := int64(-1), start
+		for {
+			select {
+			case <-c.quit:
+				return
+			case now := <-t.C:
+				if p := c.progress.Load(); p != last {
+					last, lastAt = p, now
+				}
+				if now.Sub(start) > timeout || now.Sub(lastAt) > stall {
+					c.expired.Store(true)
+					c.Cancel()
+					return
+				}
+			}
+		}
+	}()
+	return c
+}
+
+// tick records progress.
+func (c *runClock) tick() { c.progress.Add(1) }
+
+// stop ends the watchdog; the context stays as it is.
+func (c *runClock) stop() { c.once.Do(func() { close(c.quit) }) }
+
+// code is the status code of a failed operation, "timeout" when the watchdog ended the run.
+func (c *runClock) code(st status.Status) string {
+	if c.expired.Load() && (st.Code == status.CodeCancelled || st.Code == status.CodeTimeout) {
+		return "timeout"
+	}
+	return string(st.Code)
+}
 
 // startServer starts a server on a free loopback port and waits until it listens.
 func startServer(h mpx.Handler, lg *caplog.Logger, opts mpx.Options) (mpx.Server, string, string) {
